@@ -389,6 +389,7 @@ type failingMarshaler struct{}
 func (failingMarshaler) MarshalJSON() ([]byte, error) { return nil, fmt.Errorf("no") }
 
 func c01Numbers(c *Ctx) {
+	c01MoreTypes(c)
 	c01Orders(c)
 	c01EncoderStreams(c)
 	c01NumberTexts(c)
@@ -429,6 +430,10 @@ func c01Replay(c *Ctx, raw stdjson.RawMessage) {
 	}
 	if strings.HasPrefix(k.Setting, "order:") {
 		c01Orders(c)
+		return
+	}
+	if strings.HasPrefix(k.Setting, "moretypes:") {
+		c01MoreTypes(c)
 		return
 	}
 	if strings.HasPrefix(k.Setting, "deep:") {
@@ -1194,7 +1199,7 @@ func c02Replay(c *Ctx, raw stdjson.RawMessage) {
 	if stdjson.Unmarshal(raw, &k) != nil {
 		return
 	}
-	if k.Setting == "ptrptr" || k.Setting == "durationdoc" || k.Setting == "casefold" || k.Setting == "timetext" || k.Setting == "depthlimit" {
+	if k.Setting == "ptrptr" || k.Setting == "durationdoc" || k.Setting == "casefold" || k.Setting == "timetext" || k.Setting == "depthlimit" || strings.HasPrefix(k.Setting, "moretypes:") {
 		c02PtrPtr(c)
 		return
 	}
@@ -1428,6 +1433,7 @@ func c02DepthLimit(c *Ctx) {
 }
 
 func c02PtrPtr(c *Ctx) {
+	c02MoreTypes(c)
 	c02DepthLimit(c)
 	c02CaseFold(c)
 	c02Durations(c)
